@@ -87,6 +87,16 @@ func c12Specs() []*bfsSpec {
 		specs = append(specs, &bfsSpec{Name: "c12-degenerate-" + kind, Cfg: cfg,
 			Alphabet: []string{"mtick", "manswer:1", "manswer:2", "mdata:1:0:true:true:tail", "mdata:0:0:forged:true:tail", "close:1", "want:0:1", "tick"}, Depth: 4, DepthT: 5})
 	}
+	// size votes arrive one by one: a hostile peer announces a too-large size and
+	// fills the buffer sized for it before two honest peers out-vote it
+	for _, size := range []int{20000, 40000} {
+		silent := peerCfg{Fast: true, Ext: true, NoExt0: true, Metadata: 8, Pex: 9, DontHave: 7}
+		cfg := worldCfg{Geom: "gtail", Magnet: true, AutoDrain: true, InfoSize: size, Peers: []peerCfg{silent, silent, silent}}
+		specs = append(specs, &bfsSpec{Name: fmt.Sprintf("c12-votes%d", size), Cfg: cfg,
+			Alphabet: []string{"vote:0:100000", "vote:1:true", "vote:2:true", "mdata:0:0:forged:100000:chunk", "mdata:0:1:forged:100000:chunk", "mdata:0:2:forged:100000:chunk",
+				"mdata:0:0:true:100000:chunk", "mtick", "manswer:1"},
+			Depth: 5, DepthT: 6, Live: metadataLiveness})
+	}
 	return specs
 }
 
@@ -94,6 +104,9 @@ func TestVerifC12(t *testing.T) {
 	specs := c12Specs()
 	// peers are configured once the true metadata size of each world is known
 	for _, s := range specs {
+		if s.Cfg.Peers != nil {
+			continue
+		}
 		g := geomByName(s.Cfg.Geom)
 		truth := make([]byte, g.Length)
 		for i := range truth {
